@@ -86,6 +86,7 @@ type Engine struct {
 	srcCache  map[string][]byte
 	globalsRO map[*ssa.Global]bool
 	typeTags  map[string]int
+	tagTypes  map[int]types.Type
 	notes     map[string]bool // assumptions / havoc'd callees used (for evidence)
 }
 
@@ -687,6 +688,7 @@ func (fv *FnVerifier) posString(pos token.Pos) string {
 
 // oblige registers goal (must hold whenever cond holds).
 func (fv *FnVerifier) oblige(kind, label, cond, goal string, pos token.Pos, detail string) *Obligation {
+	goal = fv.skolemizeGoal(goal)
 	g := goal
 	if cond != "" && cond != "true" {
 		g = "(=> " + cond + " " + goal + ")"
